@@ -244,7 +244,19 @@ pub fn extnum_shapes() -> Vec<Skeleton> {
     let mut v = Vec::new();
     for enc in ENCS {
         let mut s = Spec::new(enc, TableOrder::Linker);
-        s.secs = vec![Sec::new(b".text", SHT_PROGBITS, vec![0x90; 9]), Sec::new(b".data", SHT_PROGBITS, vec![1, 2, 3])];
+        let symsz = layout(Kind::Sym, enc.class).size as u64;
+        let names: Vec<Vec<u8>> = vec![b"".to_vec(), b"main".to_vec(), b"x".to_vec()];
+        let (strtab, offs) = build_strtab(&names);
+        let symtab = build_symtab(enc, &offs);
+        // symbol tables too: with the count in shdr[0].sh_size, header 0 designates a non-empty range,
+        // which is what a link of 0 then names
+        s.secs = vec![
+            Sec::new(b".text", SHT_PROGBITS, vec![0x90; 9]),
+            Sec::new(b".data", SHT_PROGBITS, vec![1, 2, 3]),
+            Sec::new(b".symtab", SHT_SYMTAB, symtab.clone()).link(4).info(1).entsize(symsz),
+            Sec::new(b".strtab", SHT_STRTAB, strtab.clone()),
+            Sec::new(b".dynsym", SHT_DYNSYM, symtab).link(4).info(1).entsize(symsz),
+        ];
         s.segs = vec![Seg { p_type: PT_LOAD, flags: 5, vaddr: 0, paddr: 0, align: 16, memsz_extra: 0, target: SegTarget::Section(1) }];
         let mut b = build(&s);
         let nsec = b.shnum as u64;
@@ -494,6 +506,26 @@ pub const QUIRK_MACHINES: [(u16, &str); 14] = [
     (4, "EM_68K"),
     (0, "EM_NONE"),
 ];
+
+/// The tiny-full skeletons (linker order) as relocatable, executable and core files.
+pub fn filetype_variants() -> Vec<Skeleton> {
+    let mut v = Vec::new();
+    for (k, sk) in tiny_skeletons().into_iter().enumerate() {
+        if k % 2 == 0 {
+            continue;
+        }
+        for (t, tname) in [(1u64, "ET_REL"), (2, "ET_EXEC"), (4, "ET_CORE")] {
+            let mut sk = sk.clone();
+            let site = sk.sites.iter().position(|s| s.role == "ehdr.e_type").expect("e_type site");
+            let (off, width) = (sk.sites[site].off, sk.sites[site].width);
+            put(&mut sk.bytes, off, width, sk.enc.order, t);
+            sk.sites[site].valid = t;
+            sk.name = format!("{}/{}", sk.name, tname);
+            v.push(sk);
+        }
+    }
+    v
+}
 
 /// The tiny-full skeletons (linker order) re-labelled for each of the quirk machines.
 pub fn machine_variants() -> Vec<Skeleton> {
